@@ -134,26 +134,45 @@ Definition nak_d1 (p idx level : nat) (knots : list Qc) (x : Qc) : Qc :=
 Definition nak_d2 (p idx level : nat) (knots : list Qc) (x : Qc) : Qc :=
   if nak_is_lagrange p level then lag_d2 knots idx x else bs_d2 knots p idx x.
 
-(* LagrangeBasisRestrictedModified: `knots[index-1]` wraps to the last knot for index 0 (Python),
-   `knots[index+1]` beyond the end raises (constructor) *)
+(* LagrangeBasisRestrictedModified: is_left_border / is_right_border compare the NEIGHBOURING knot with the domain
+   border.  The pinned constructor reads knots[index-1] (wraps to the last knot for index 0) and knots[index+1] (raises
+   past the end); every grid that reaches it raises (finding C10-modified-global-lagrange-raises).  The model takes
+   the guarded reading of the proposed fix (fixes/C10-modified-global-lagrange.patch): no neighbour, no border.  On
+   every object that the pinned constructor builds with index >= 1 both readings agree. *)
 Definition rlm_left (knots : list Qc) (idx : nat) (a : Qc) : bool :=
-  Qc_eqb (match idx with O => nthQ knots (length knots - 1) | S i => nthQ knots i end) a.
-Definition rlm_right (knots : list Qc) (idx : nat) (b : Qc) : bool := Qc_eqb (nthQ knots (idx + 1)) b.
+  match idx with O => false | S i => Qc_eqb (nthQ knots i) a end.
+Definition rlm_right (knots : list Qc) (idx : nat) (b : Qc) : bool :=
+  (idx + 1 <? length knots)%nat && Qc_eqb (nthQ knots (idx + 1)) b.
+(* what the PINNED constructor needs in order not to raise (kept for reference; not used by the grid model) *)
 Definition rlm_constructible (knots : list Qc) (idx : nat) : bool := (idx + 1 <? length knots)%nat.
 
-Definition rlm_eval (p : nat) (knots : list Qc) (idx : nat) (a b : Qc) (level : nat) (x : Qc) : Qc :=
+(* generic over the observable (value / first / second derivative of the UNRESTRICTED LagrangeBasis methods, as
+   __call__ and _modified_derivative use them): `obs i x` is the observable of LagrangeBasis(p, i, knots) at x,
+   `one` the result on level 1 (1.0 for the value, 0.0 for the derivatives).
+   The correction factor uses LagrangeBasis.get_second_derivative(self, border) (unrestricted). *)
+Definition rlm_obs (obs : nat -> Qc -> Qc) (one : Qc)
+           (p : nat) (knots : list Qc) (idx : nat) (a b : Qc) (level : nat) (x : Qc) : Qc :=
   if rl_in_support knots idx x then
-    if (level =? 1)%nat then 1 else
-    let r := lag_eval knots idx x in
+    if (level =? 1)%nat then one else
+    let r := obs idx x in
     if rlm_left knots idx a then
-      if (1 <? p)%nat then r - rl_d2 knots idx a / lag_d2 knots 0 a * lag_eval knots 0 x
-      else r + Qc2 * lag_eval knots 0 x
+      if (1 <? p)%nat then r - lag_d2 knots idx a / lag_d2 knots 0 a * obs 0%nat x
+      else r + Qc2 * obs 0%nat x
     else if rlm_right knots idx b then
       let last := (length knots - 1)%nat in
-      if (1 <? p)%nat then r - rl_d2 knots idx b / lag_d2 knots last b * lag_eval knots last x
-      else r + Qc2 * lag_eval knots last x
+      if (1 <? p)%nat then r - lag_d2 knots idx b / lag_d2 knots last b * obs last x
+      else r + Qc2 * obs last x
     else r
   else 0.
+
+Definition rlm_eval (p : nat) (knots : list Qc) (idx : nat) (a b : Qc) (level : nat) (x : Qc) : Qc :=
+  rlm_obs (lag_eval knots) 1 p knots idx a b level x.
+(* get_first_derivative / get_second_derivative = _modified_derivative(x, 1 | 2)  (fix c76483e: derivatives of the
+   modified function; before that commit the class inherited the derivatives of the unmodified restricted basis) *)
+Definition rlm_d1 (p : nat) (knots : list Qc) (idx : nat) (a b : Qc) (level : nat) (x : Qc) : Qc :=
+  rlm_obs (lag_d1 knots) 0 p knots idx a b level x.
+Definition rlm_d2 (p : nat) (knots : list Qc) (idx : nat) (a b : Qc) (level : nat) (x : Qc) : Qc :=
+  rlm_obs (lag_d2 knots) 0 p knots idx a b level x.
 
 (* HierarchicalNotAKnotBSplineModified: generic over the observable (value / first / second derivative) *)
 Definition nakmod_obs (obs : nat -> Qc -> Qc) (one : Qc) (p idx level : nat) (knots : list Qc) (a b : Qc) (x : Qc) : Qc :=
@@ -182,7 +201,7 @@ Definition bd1 (bf : basis) (x : Qc) : Qc :=
   match bf with
   | BLag knots idx => lag_d1 knots idx x
   | BRLag knots idx => rl_d1 knots idx x
-  | BRLagMod p knots idx a b level => rl_d1 knots idx x      (* inherited, NOT modified in the code *)
+  | BRLagMod p knots idx a b level => rlm_d1 p knots idx a b level x
   | BBsp p knots k => bs_d1 knots p k x
   | BNak p idx level knots => nak_d1 p idx level knots x
   | BNakMod p idx level knots a b => nakmod_obs (fun i y => nak_d1 p i level knots y) 0 p idx level knots a b x
@@ -192,7 +211,7 @@ Definition bd2 (bf : basis) (x : Qc) : Qc :=
   match bf with
   | BLag knots idx => lag_d2 knots idx x
   | BRLag knots idx => rl_d2 knots idx x
-  | BRLagMod p knots idx a b level => rl_d2 knots idx x
+  | BRLagMod p knots idx a b level => rlm_d2 p knots idx a b level x
   | BBsp p knots k => bs_d2 knots p k x
   | BNak p idx level knots => nak_d2 p idx level knots x
   | BNakMod p idx level knots a b => nakmod_obs (fun i y => nak_d2 p i level knots y) 0 p idx level knots a b x
@@ -260,7 +279,7 @@ Definition window (p : nat) (knots : list Qc) (x : Qc) : option (list Qc) :=
 (* state of the level loop: parents dict (unwindowed knots per point) and the chosen (knots, index, level) per point *)
 Definition lsel_state : Type := (list (Qc * list Qc) * list (Qc * (list Qc * nat * nat)))%type.
 
-Definition lsel_point (p : nat) (boundary : bool) (pts : list Qc) (levs : list nat) (l : nat)
+Definition lsel_point (p : nat) (boundary modified : bool) (pts : list Qc) (levs : list nat) (l : nat)
            (st : option lsel_state) (x : Qc) : option lsel_state :=
   match st with
   | None => None
@@ -268,7 +287,7 @@ Definition lsel_point (p : nat) (boundary : bool) (pts : list Qc) (levs : list n
     let knots0 :=
       match l with
       | O => Some (points_at_level pts levs 0)
-      | S O => if boundary then Some (sortQ (points_at_level pts levs 0 ++ points_at_level pts levs 1))
+      | S O => if boundary || modified then Some (sortQ (points_at_level pts levs 0 ++ points_at_level pts levs 1))
                else Some (sortQ (points_at_level pts levs 1))
       | _ => match get_parent x pts levs with
              | None => None
@@ -291,9 +310,9 @@ Definition lsel_point (p : nat) (boundary : bool) (pts : list Qc) (levs : list n
     end
   end.
 
-Definition lsel_levels (p : nat) (boundary : bool) (pts : list Qc) (levs : list nat) : option lsel_state :=
+Definition lsel_levels (p : nat) (boundary modified : bool) (pts : list Qc) (levs : list nat) : option lsel_state :=
   let start := if boundary then O else 1%nat in
-  fold_left (fun st l => fold_left (lsel_point p boundary pts levs l) (points_at_level pts levs l) st)
+  fold_left (fun st l => fold_left (lsel_point p boundary modified pts levs l) (points_at_level pts levs l) st)
             (seq start (max_level levs + 1 - start)) (Some ([], [])).
 
 (* the grid points that carry a basis: all (boundary) or [1:-1] *)
@@ -308,13 +327,15 @@ Fixpoint opt_list {A} (l : list (option A)) : option (list A) :=
   end.
 
 (* GlobalLagrangeGrid.compute_1D_quad_weights (basis part): one (point, basis) per grid point, grid order.
-   modified: LagrangeBasisRestrictedModified(p, index, knots, a, b, l), whose constructor raises when index+1 = len *)
+   modified: LagrangeBasisRestrictedModified(p, index, knots, a, b, l).  The pinned code builds the level-1 knots of a
+   boundary-free grid from the level-1 points only, so that the modified constructor always raises; the model follows
+   the proposed fix (level-1 knots contain the two boundary points whenever the basis is modified), which is the only
+   reading under which is_left_border / is_right_border can ever hold. *)
 Definition lagrange_system (p : nat) (boundary modified : bool) (a b : Qc) (pts : list Qc) (levs : list nat)
   : option (list (Qc * basis)) :=
-  match lsel_levels p boundary pts levs with
+  match lsel_levels p boundary modified pts levs with
   | None => None
   | Some (_, out) =>
-    if modified && existsb (fun e => negb (rlm_constructible (fst (fst (snd e))) (snd (fst (snd e))))) out then None else
     opt_list (map (fun x => match assocQ x out with
                             | None => None
                             | Some (kw, ix, l) =>
@@ -360,16 +381,19 @@ Definition level_indices (l : nat) : list nat :=
   match l with O => [0; 1]%nat | _ => map (fun k => (2 * k + 1)%nat) (seq 0 (2 ^ (l - 1))) end.
 
 (* GlobalBSplineGrid.compute_1D_quad_weights (basis part) *)
-Definition bspline_assign (p : nat) (boundary modified : bool) (a b : Qc) (pts : list Qc) (levs : list nat)
+(* `md l i`: is the basis of index i on level l built with the modified class? *)
+Definition bspline_assign_gen (p : nat) (boundary : bool) (md : nat -> nat -> bool) (a b : Qc) (pts : list Qc) (levs : list nat)
   : list (Qc * basis) :=
   let start := if boundary then O else 1%nat in
   flat_map (fun l =>
       let complete := full_hierarchy pts levs l in
       let knots := nak_knots p l a b complete in
       flat_map (fun i => let x := nthQ complete i in
-                         if memQ x pts then [(x, if modified then BNakMod p i l knots a b else BNak p i l knots)] else [])
+                         if memQ x pts then [(x, if md l i then BNakMod p i l knots a b else BNak p i l knots)] else [])
                (level_indices l))
     (seq start (max_level levs + 1 - start)).
+Definition bspline_assign (p : nat) (boundary modified : bool) (a b : Qc) (pts : list Qc) (levs : list nat)
+  : list (Qc * basis) := bspline_assign_gen p boundary (fun _ _ => modified) a b pts levs.
 
 (* later assignments overwrite earlier ones (self.basis[d][index] = spline) *)
 Definition assoc_last {A} (x : Qc) (l : list (Qc * A)) : option A := assocQ x (rev l).
@@ -402,12 +426,36 @@ Definition local_slice {A} (boundary : bool) (lo_cut hi_cut : bool) (l : list A)
   let l1 := if lo_cut then tl l else l in
   if hi_cut then removelast l1 else l1.
 
+(* which functions of a local modified B-spline grid are built with the modified class: the modification extrapolates
+   towards the DOMAIN border, so it applies only at an end of the area that lies on the border (lo_cut / hi_cut); the
+   level-1 function is the constant as soon as one end does.
+   NOTE (finding C10-local-bspline-modified-subarea-unsolvable): the pinned code modifies both ends of every area; on
+   every sub-area that keeps an end point the collocation matrix is then singular in exact arithmetic (LinAlgError or
+   meaningless surpluses).  On the whole domain (both ends cut) this rule and the pinned code build the same functions
+   (the modified class differs from the plain one only on level 1 and at the indices 1 and 2^l - 1). *)
+Definition local_md (modified lo_cut hi_cut : bool) (l i : nat) : bool :=
+  modified && (if (l =? 1)%nat then lo_cut || hi_cut
+               else ((i =? 1)%nat && lo_cut) || ((i =? 2 ^ l - 1)%nat && hi_cut)).
+
 Definition local_bspline_system (p L : nat) (boundary modified : bool) (a b s e : Qc) : option (list (Qc * basis)) :=
   let pts := regular_points s e L in
   let levs := regular_levels L in
-  let asg := bspline_assign p true modified s e pts levs in
+  let asg := bspline_assign_gen p true (local_md modified (Qc_eqb s a) (Qc_eqb e b)) s e pts levs in
   opt_list (map (fun x => match assoc_last x asg with None => None | Some bf => Some (x, bf) end)
                 (local_slice boundary (Qc_eqb s a) (Qc_eqb e b) pts)).
+
+(* LagrangeGrid1D.compute_1D_quad_weights + set_current_area: the hierarchy of the full level grid of the area, then the
+   slice [lowerBorder:upperBorder].
+   NOTE (finding C10-local-lagrange-no-boundary-raises): the pinned code derives levels and parents from the already
+   sliced coordinate list and raises on every boundary-free grid; the model follows the proposed fix (hierarchy on the
+   full level grid, slice at the end, as BSplineGrid1D does).  With boundary = true nothing is sliced and both agree. *)
+Definition local_lagrange_system (p L : nat) (boundary : bool) (a b s e : Qc) : option (list (Qc * basis)) :=
+  let pts := regular_points s e L in
+  let levs := regular_levels L in
+  match lagrange_system p true false s e pts levs with
+  | None => None
+  | Some sy => Some (local_slice boundary (Qc_eqb s a) (Qc_eqb e b) sy)
+  end.
 
 (* ------------------------------------------------------------------ collocation matrix, 1-D solve *)
 Definition matrix := list (list Qc).
